@@ -133,6 +133,42 @@ impl<'template, 'env> State<'template, 'env> {
         )
     }
 
+    /// The execution state nested evaluations have to restore (verification hook).
+    #[cfg(feature = "verif_hooks")]
+    #[cfg_attr(
+        not(any(feature = "macros", feature = "multi_template")),
+        allow(dead_code)
+    )]
+    pub(crate) fn verif_snapshot(&self) -> crate::verif_hooks::balance::ExecSnapshot {
+        crate::verif_hooks::balance::ExecSnapshot {
+            frames: self.ctx.verif_stack_len(),
+            depth: self.ctx.depth(),
+            instructions: self.instructions as *const Instructions<'_> as usize,
+            name: self.instructions.name().to_string(),
+            auto_escape: self.auto_escape,
+            #[cfg(feature = "multi_template")]
+            current_block: self.current_block.map(|x| x.to_string()),
+            #[cfg(not(feature = "multi_template"))]
+            current_block: None,
+            #[cfg(feature = "multi_template")]
+            blocks: self.blocks.len(),
+            #[cfg(not(feature = "multi_template"))]
+            blocks: 0,
+            #[cfg(feature = "multi_template")]
+            block_stacks: self
+                .blocks
+                .values()
+                .map(|x| x.instructions.len() + x.depth)
+                .sum(),
+            #[cfg(not(feature = "multi_template"))]
+            block_stacks: 0,
+            #[cfg(feature = "multi_template")]
+            loaded_templates: self.loaded_templates.len(),
+            #[cfg(not(feature = "multi_template"))]
+            loaded_templates: 0,
+        }
+    }
+
     /// Returns a reference to the current environment.
     #[inline(always)]
     pub fn env(&self) -> &'env Environment<'env> {
@@ -318,7 +354,22 @@ impl<'template, 'env> State<'template, 'env> {
     #[cfg_attr(docsrs, doc(cfg(feature = "multi_template")))]
     pub fn render_block(&mut self, block: &str) -> Result<String, Error> {
         let mut buf = String::new();
-        crate::vm::call_block(block, self, &mut Output::new(&mut buf)).map(|_| buf)
+        #[cfg(not(feature = "verif_hooks"))]
+        {
+            crate::vm::call_block(block, self, &mut Output::new(&mut buf)).map(|_| buf)
+        }
+        #[cfg(feature = "verif_hooks")]
+        {
+            let verif_before = self.verif_snapshot();
+            let rv = crate::vm::call_block(block, self, &mut Output::new(&mut buf)).map(|_| buf);
+            crate::verif_hooks::balance::nested(
+                "render_block",
+                rv.is_ok(),
+                verif_before,
+                self.verif_snapshot(),
+            );
+            rv
+        }
     }
 
     /// Renders a block with the given name into an [`io::Write`](std::io::Write).
